@@ -658,3 +658,6 @@ def required_labels(tier):
 
 
 KNOWN_PREDICATES = {}
+
+
+RULE = RULE + " " + ("Further sub-checks: a second universe with operator-like tag names (OR-1, NOT.x, k=And, Or, AND; OR-* wildcards) that are operands, never operators; the command-line route (one --tags option per term of a real Configuration, with and without --wip); rendering 32 = a term that starts with '(' and ends with ')' without being one group.")
